@@ -377,6 +377,30 @@ class SpecEval:
                 self.facts.append(fold_app(self.ex, a, lst, self.st).t <= r.t)
         return r
 
+    def fn_allocated(self, node):
+        """allocated(x): the object x exists in this state (old(allocated(x)) is false for objects created since)."""
+        x = O.strip_opt(self.ev(node.args[0]))
+        if x.ty.kind != "ref":
+            raise SpecError("allocated() of a non-object")
+        return V.mk_bool(z3.Select(self.st.alloc_map(x.ty.name), x.t))
+
+    def fn_fold_hint(self, node):
+        """fold_hint("name", L): true; adds the extremal facts of a bounded sum for this list
+        (all terms at a bound <=> the sum is at that bound) - finite-sum lemma schemas."""
+        name = node.args[0].value
+        lst = O.strip_opt(self.ev(node.args[1]))
+        r = fold_app(self.ex, name, lst, self.st)
+        n = V.list_len(lst)
+        lo, hi = S.FOLD_BOUNDS[name]
+        qi = z3.Int(V.fresh_name("qi"))
+        ti = fold_term(self.ex, name, V.list_get(lst, qi), self.st, self.facts).t
+        rng = z3.And(0 <= qi, qi < n)
+        self.facts.append(z3.Implies(z3.And(n >= 0, z3.ForAll([qi], z3.Implies(rng, ti == hi))), r.t == hi * n))
+        self.facts.append(z3.Implies(z3.And(n >= 0, z3.ForAll([qi], z3.Implies(rng, ti == lo))), r.t == lo * n))
+        self.facts.append(z3.Implies(z3.Exists([qi], z3.And(rng, ti <= hi - 1)), r.t <= hi * n - 1))
+        self.facts.append(z3.Implies(z3.Exists([qi], z3.And(rng, ti >= lo + 1)), r.t >= lo * n + 1))
+        return V.mk_bool(True)
+
     def fn_nameset(self, node):
         """nameset(L): the set of .name of the elements of list L (deterministic in L and the name map)."""
         lst = O.strip_opt(self.ev(node.args[0]))
